@@ -259,6 +259,12 @@ func (x *Exec) selectStmt(s *ast.SelectStmt, st *State, cx *Ctx, k func(*State))
 		}
 		switch c := cc.Comm.(type) {
 		case nil:
+			// the default case: an environment assumption may exclude it (e.g. "data is waiting")
+			for _, ev := range x.sp.Events {
+				if ev.Kind == "default" && ev.Pkg == x.fn.pkgPath() && (ev.In == "" || strings.HasSuffix(x.fn.key, "."+ev.In)) {
+					x.runEvent(b, cc, ev, map[string]Val{})
+				}
+			}
 		case *ast.SendStmt:
 			v := x.eval(b, c.Value)
 			x.sendEvent(b, c.Chan, v, c)
@@ -621,6 +627,7 @@ func (x *Exec) loop(s ast.Stmt, st *State, cx *Ctx, k func(*State)) {
 		if es, _ := x.elemSort(rangeVal); kind == "slice" && es == "Int" {
 			a := x.arrComp(st, "Int")
 			st.assume(app("=", app("lsum", app("sl_off", rangeVal.T), "0", app("select", a.T, app("sl_arr", rangeVal.T))), "0"))
+			st.assume(app("=", app("pset", app("select", a.T, app("sl_arr", rangeVal.T)), app("sl_off", rangeVal.T), "0"), "((as const (Array Int Bool)) false)"))
 		}
 		checkInvs(st, hidden, "inv-entry")
 		// havoc
@@ -713,6 +720,9 @@ func (x *Exec) loop(s ast.Stmt, st *State, cx *Ctx, k func(*State)) {
 				inner := app("select", a.T, app("sl_arr", rangeVal.T))
 				off := app("sl_off", rangeVal.T)
 				i := hid["$i"].T
+				iter.assume(app("=", app("pset", inner, off, app("+", i, "1")), app("store", app("pset", inner, off, i), app("select", inner, app("at", off, i)), "true")))
+				iter.assume(app("=", app("pset", inner, off, "0"), "((as const (Array Int Bool)) false)"))
+				exit.assume(app("=", app("pset", inner, off, "0"), "((as const (Array Int Bool)) false)"))
 				iter.assume(app("=", app("lsum", off, "0", inner), "0"))
 				iter.assume(app("=", app("lsum", off, app("+", i, "1"), inner), app("+", app("lsum", off, i, inner), app("select", inner, app("at", off, i)))))
 				exit.assume(app("=", app("lsum", off, "0", inner), "0"))
